@@ -2,8 +2,8 @@
 from ..rules import folds
 from .common import declare
 
-RULES = ['CARRY-PLUMB', 'EWM-ROWS', 'DECAY-UNREACHABLE', 'FOLD-DERIVE', 'CTOR-COPY']
-FLOORS = {'CARRY-PLUMB': 11, 'EWM-ROWS': 1, 'DECAY-UNREACHABLE': 3, 'CTOR-COPY': 3}
+RULES = ['CARRY-PLUMB', 'EWM-ROWS', 'DECAY-UNREACHABLE', 'FOLD-DERIVE', 'CTOR-COPY', 'ACC-CONTRACT']
+FLOORS = {'CARRY-PLUMB': 11, 'EWM-ROWS': 1, 'DECAY-UNREACHABLE': 3, 'CTOR-COPY': 3, 'ACC-CONTRACT': 2}
 
 META = {
     'level': "Static analysis of the carry-over plumbing only - the part of the property that is order and identity, not numbers: in "
@@ -35,3 +35,5 @@ def run(ctx, R):
     R.run(folds.check_decay_unreachable, ctx, R)
     R.run(folds.check_fold_derive, ctx, R, steps=('on_new',))
     R.run(folds.check_ctor_copy, ctx, R)
+    # the carry-over lives in the state of core.accumulate: it is stored before the result is delivered
+    R.run(folds.check_acc_contract, ctx, R)
